@@ -210,3 +210,11 @@ package curve
 //@   requires p != nil
 //@   modifies nothing
 //@   summary result == even_y(ptval(p)) && ptval(p) == old(ptval(p))
+
+// MakeInt panics only if the scalar's encoder fails, which the secp256k1 scalar never does.
+//@ func MakeInt
+//@   nopanic[C05]
+//@   requires s != nil && typeis(s, *Secp256k1Scalar)
+//@   modifies nothing
+//@   allocates
+//@   ensures result != nil && fresh(result)
